@@ -13,11 +13,18 @@
 //	mapordered call of a function of the scanned packages that RETURNS a slice filled inside a map range and not
 //	           sorted (a "map-ordered slice producer": SealRound, GetValidators, …): the caller inherits the schedule
 //
-// Site id  = <kind> <file>:<function>:<operand>[#k]:<fingerprint>
+// Site id  = <kind> <file>:<function>:<operand>[#k]:<fingerprint>   (fingerprint = stmt.function.callees)
 // fingerprint = sha1(shape of the statement's syntax tree)[:8] "." sha1(shape of the whole enclosing
 // function's syntax tree)[:8]; "shape" = node kinds + identifiers + literals + operators, no positions, comments
 // or layout, so pure formatting changes do not move it — the second half matters because whether a map-range is harmless usually depends
 // on what the function does AFTER the loop (the sort that follows, the use of the collected slice).
+//
+// Third fingerprint component (wave 5): sha1 over the shapes of the CALLEES the schedule reaches — the functions of
+// the scanned packages that are called (transitively, depth <= 3) from the body of a map range, from the body of a
+// `for … range <slice that came from a map-ordered producer>` loop, or that receive the producer's result as an
+// argument.  A lemma about such a loop rests on a property of those callees (e.g. "removing feeder f from a nonce
+// list commutes"), so a change of their bodies must un-cover the site.  Calls through keeper interfaces are resolved
+// by method name to every concrete method of that name in the scanned packages.  "0" = no such callee.
 //
 // usage: sitescan -repo DIR -sites coq/C08/sites.txt [-props coq/C08/Props.v] [-json] [-emit]
 package main
@@ -55,6 +62,107 @@ type Site struct {
 	Status      string `json:"status"` // ok | new | changed | stale | bad-lemma
 	Covered     bool   `json:"covered"`
 	Disposition string `json:"disposition"`
+}
+
+// funcDecls: full name -> shape of the declaration, and callees (full names / bare method names for interface calls)
+type declInfo struct {
+	shape   string
+	callees []string
+}
+
+var (
+	funcDecls     = map[string]*declInfo{}
+	methodsByName = map[string][]string{} // bare method name -> full names of concrete methods
+)
+
+func calleesOf(info *types.Info, n ast.Node) []string {
+	var out []string
+	ast.Inspect(n, func(x ast.Node) bool {
+		c, ok := x.(*ast.CallExpr)
+		if !ok {
+			return true
+		}
+		var fn *types.Func
+		switch fx := c.Fun.(type) {
+		case *ast.Ident:
+			fn, _ = info.Uses[fx].(*types.Func)
+		case *ast.SelectorExpr:
+			fn, _ = info.Uses[fx.Sel].(*types.Func)
+		}
+		if fn == nil {
+			return true
+		}
+		if sig, ok := fn.Type().(*types.Signature); ok && sig.Recv() != nil {
+			if _, isIface := sig.Recv().Type().Underlying().(*types.Interface); isIface {
+				out = append(out, "iface:"+fn.Name())
+				return true
+			}
+		}
+		out = append(out, fn.FullName())
+		return true
+	})
+	return out
+}
+
+func indexDecls(p *packages.Package, f *ast.File) {
+	for _, d := range f.Decls {
+		fd, ok := d.(*ast.FuncDecl)
+		if !ok || fd.Body == nil {
+			continue
+		}
+		obj, ok := p.TypesInfo.Defs[fd.Name].(*types.Func)
+		if !ok {
+			continue
+		}
+		funcDecls[obj.FullName()] = &declInfo{shape: shape(fd), callees: calleesOf(p.TypesInfo, fd.Body)}
+		if fd.Recv != nil {
+			methodsByName[fd.Name.Name] = append(methodsByName[fd.Name.Name], obj.FullName())
+		}
+	}
+}
+
+// closureFP hashes the shapes of everything reachable from the seed callees within depth 3.
+func closureFP(seeds []string) string {
+	seen := map[string]bool{}
+	var visit func(name string, depth int)
+	visit = func(name string, depth int) {
+		if strings.HasPrefix(name, "iface:") {
+			for _, full := range methodsByName[strings.TrimPrefix(name, "iface:")] {
+				visit(full, depth)
+			}
+			return
+		}
+		d, ok := funcDecls[name]
+		if !ok || seen[name] {
+			return
+		}
+		seen[name] = true
+		if depth >= 3 {
+			return
+		}
+		for _, c := range d.callees {
+			visit(c, depth+1)
+		}
+	}
+	for _, sd := range seeds {
+		visit(sd, 1)
+	}
+	if len(seen) == 0 {
+		return "0"
+	}
+	names := make([]string, 0, len(seen))
+	for n := range seen {
+		names = append(names, n)
+	}
+	sort.Strings(names)
+	var sb strings.Builder
+	for _, n := range names {
+		sb.WriteString(n)
+		sb.WriteByte('=')
+		sb.WriteString(funcDecls[n].shape)
+		sb.WriteByte(';')
+	}
+	return h8(sb.String())
 }
 
 var patterns = []string{"./x/...", "./app", "./app/ante/...", "./precompiles/...", "./utils/...", "./types/..."}
@@ -214,6 +322,7 @@ func main() {
 				continue
 			}
 			findProducers(p, f, producers)
+			indexDecls(p, f)
 		}
 	}
 	for _, p := range pkgs {
@@ -450,16 +559,57 @@ func scanFile(p *packages.Package, f *ast.File, rel string, out *[]*Site, produc
 		}
 		fname := funcName(fd)
 		ffp := h8(shape(fd))
-		add := func(kind string, n ast.Node, operand string, fpnode ast.Node) {
+		addC := func(kind string, n ast.Node, operand string, fpnode ast.Node, seeds []string) {
 			*out = append(*out, &Site{Kind: kind, File: rel, Func: fname, Operand: strings.Join(strings.Fields(operand), ""),
-				FP: h8(shape(fpnode)) + "." + ffp, Line: fset.Position(n.Pos()).Line})
+				FP: h8(shape(fpnode)) + "." + ffp + "." + closureFP(seeds), Line: fset.Position(n.Pos()).Line})
+		}
+		add := func(kind string, n ast.Node, operand string, fpnode ast.Node) { addC(kind, n, operand, fpnode, nil) }
+		// schedule-carrying loops of this function: which identifiers hold a producer's result, which calls take it
+		// as an argument
+		consumerSeeds := func(call *ast.CallExpr) []string {
+			var seeds []string
+			carriers := map[types.Object]bool{}
+			ast.Inspect(fd.Body, func(m ast.Node) bool {
+				switch y := m.(type) {
+				case *ast.AssignStmt:
+					for _, r := range y.Rhs {
+						if r == ast.Expr(call) {
+							for _, l := range y.Lhs {
+								if id, ok := l.(*ast.Ident); ok && id.Name != "_" {
+									if o := info.ObjectOf(id); o != nil {
+										if _, isSlice := o.Type().Underlying().(*types.Slice); isSlice {
+											carriers[o] = true
+										}
+									}
+								}
+							}
+						}
+					}
+				case *ast.CallExpr:
+					for _, a := range y.Args {
+						if a == ast.Expr(call) {
+							seeds = append(seeds, calleesOf(info, &ast.ExprStmt{X: &ast.CallExpr{Fun: y.Fun}})...)
+						}
+					}
+				}
+				return true
+			})
+			ast.Inspect(fd.Body, func(m ast.Node) bool {
+				if rs, ok := m.(*ast.RangeStmt); ok {
+					if id, ok := rs.X.(*ast.Ident); ok && carriers[info.ObjectOf(id)] {
+						seeds = append(seeds, calleesOf(info, rs.Body)...)
+					}
+				}
+				return true
+			})
+			return seeds
 		}
 		ast.Inspect(fd.Body, func(n ast.Node) bool {
 			switch x := n.(type) {
 			case *ast.RangeStmt:
 				if tv, ok := info.Types[x.X]; ok && tv.Type != nil {
 					if _, isMap := tv.Type.Underlying().(*types.Map); isMap {
-						add("maprange", x, norm(fset, x.X), x)
+						addC("maprange", x, norm(fset, x.X), x, calleesOf(info, x.Body))
 					}
 				}
 			case *ast.GoStmt:
@@ -497,7 +647,7 @@ func scanFile(p *packages.Package, f *ast.File, rel string, out *[]*Site, produc
 					callee, _ = info.Uses[fx.Sel].(*types.Func)
 				}
 				if callee != nil && producers[callee.FullName()] {
-					add("mapordered", x, callee.Name(), x)
+					addC("mapordered", x, callee.Name(), x, consumerSeeds(x))
 				}
 				// conversion to a float type
 				if tv, ok := info.Types[x.Fun]; ok && tv.IsType() && isFloat(tv.Type) {
